@@ -71,6 +71,7 @@ package service
 //@   ensures[reply-checkpoint]  its.resPushPullPack.CheckPoint == its.currentCP
 //@   ensures[checkpoint-untouched] its.currentCP.Sseq == old(its.currentCP.Sseq) && its.currentCP.Cseq == old(its.currentCP.Cseq)
 //@   ensures[stored-on-success] result == nil ==> G.stored == old(G.stored) + len(its.pushingOperations)
+//@   ensures[on-failure-the-log-may-have-grown] result != nil ==> G.stored >= old(G.stored)
 //@   modifies schema.DatatypeDoc.UpdatedDatatypeDoc/Sseq/End, model.PushPullPack.CheckPoint, schema.SubscribedClientDoc.At, schema.DatatypeDoc.UpdatedDatatypeDoc/UpdatedAt, G:stored
 
 // ---------------------------------------------------------------------------------------
